@@ -203,19 +203,24 @@ def mergeLinks (l : List (String × List (String × String))) : Dict (List (Stri
   l.foldl (fun acc kv => acc.set kv.1 (((acc.get? kv.1).getD []) ++ kv.2)) []
 
 mutual
-def Routine.ofSexp : Sexp → Option Routine
+/-- `merge = true`: the routine as `Routine.from_qref` builds it (links with the same source merged);
+    `merge = false`: the document as written (what `routine_to_latex` renders) -/
+def Routine.ofSexpWith (merge : Bool) : Sexp → Option Routine
   | .list [.atom "routine", .atom name, ty, ips, lvs, lks, ps, rs, cs, rep, .list ch] => do
-      let children ← Routine.ofSexpList ch
+      let children ← Routine.ofSexpListWith merge ch
+      let links ← listOfSexp linkOfSexp lks
       some { name := name, type := ← atomOpt ty, inputParams := ← listOfSexp atomStr ips,
-             localVars := ← listOfSexp localOfSexp lvs, linked := mergeLinks (← listOfSexp linkOfSexp lks),
+             localVars := ← listOfSexp localOfSexp lvs, linked := if merge then mergeLinks links else links,
              ports := ← listOfSexp Port.ofSexp ps, resources := ← listOfSexp Resource.ofSexp rs,
              conns := ← listOfSexp connOfSexp cs, rep := ← optRepOfSexp rep, constraints := [],
              children := children, childrenOrder := children.map (·.name) }
   | _ => none
-def Routine.ofSexpList : List Sexp → Option (List Routine)
+def Routine.ofSexpListWith (merge : Bool) : List Sexp → Option (List Routine)
   | [] => some []
-  | x :: xs => do let r ← Routine.ofSexp x; let rs ← Routine.ofSexpList xs; some (r :: rs)
+  | x :: xs => do let r ← Routine.ofSexpWith merge x; let rs ← Routine.ofSexpListWith merge xs; some (r :: rs)
 end
+
+def Routine.ofSexp : Sexp → Option Routine := Routine.ofSexpWith true
 
 mutual
 def CRoutine.toSexp : CRoutine → Sexp
